@@ -24,6 +24,7 @@ import (
 	"sync"
 	"time"
 
+	"github.com/mutagen-io/mutagen/pkg/filesystem"
 	"github.com/mutagen-io/mutagen/pkg/synchronization"
 	"github.com/mutagen-io/mutagen/pkg/synchronization/core"
 	"github.com/mutagen-io/mutagen/pkg/synchronization/endpoint/local"
@@ -67,50 +68,105 @@ func (c content) clone() content {
 	return out
 }
 
-// coldWalk describes the real root independently of the endpoint.
+// coldWalk describes the real root independently of the endpoint (paths
+// relative to the root, "/"-separated).
 func coldWalk(root string) content {
 	out := content{}
-	entries, _ := os.ReadDir(root)
-	for _, e := range entries {
-		if e.IsDir() {
-			out[e.Name()] = "d"
-			continue
+	filepath.Walk(root, func(p string, info os.FileInfo, err error) error {
+		if err != nil || p == root {
+			return nil
 		}
-		data, _ := os.ReadFile(filepath.Join(root, e.Name()))
+		rel := filepath.ToSlash(strings.TrimPrefix(p, root+string(filepath.Separator)))
+		if info.IsDir() {
+			out[rel] = "d"
+			return nil
+		}
+		data, _ := os.ReadFile(p)
 		k := "f?"
 		for v := 0; v < 3; v++ {
 			if bytes.Equal(data, variant(v)) {
 				k = "f" + strconv.Itoa(v)
 			}
 		}
-		out[e.Name()] = k
-	}
+		out[rel] = k
+		return nil
+	})
 	return out
 }
 
-// ofSnapshot describes a snapshot's content the same way.
-func ofSnapshot(s *core.Snapshot) content {
-	out := content{}
-	if s == nil || s.Content == nil {
-		return out
+// ofEntry describes what is below an entry the same way.
+func ofEntry(e *core.Entry, prefix string, out content) {
+	if e == nil {
+		return
 	}
-	for n, e := range s.Content.Contents {
-		switch e.Kind {
+	for n, c := range e.Contents {
+		p := prefix + n
+		switch c.Kind {
 		case core.EntryKind_Directory:
-			out[n] = "d"
+			out[p] = "d"
+			ofEntry(c, p+"/", out)
 		case core.EntryKind_File:
 			k := "f?"
 			for v := 0; v < 3; v++ {
-				if bytes.Equal(e.Digest, variantDigest[v]) {
+				if bytes.Equal(c.Digest, variantDigest[v]) {
 					k = "f" + strconv.Itoa(v)
 				}
 			}
-			out[n] = k
+			out[p] = k
 		default:
-			out[n] = "?"
+			out[p] = "?"
 		}
 	}
+}
+
+// absent describes "no root at all" (journal content 0).
+var absent = content{"<absent>": "!"}
+
+func ofSnapshot(s *core.Snapshot) content {
+	if s == nil || s.Content == nil {
+		return absent
+	}
+	out := content{}
+	ofEntry(s.Content, "", out)
 	return out
+}
+
+// entryListing is the harness's own deep description of an entry (nil: "-").
+func entryListing(e *core.Entry) string {
+	if e == nil {
+		return "-"
+	}
+	out := content{}
+	ofEntry(e, "", out)
+	return fmt.Sprintf("kind%d{%s}", e.Kind, out.String())
+}
+
+// fault injection: leaf names (unique per case) whose unlink / rmdir fails.
+var (
+	faultMu    sync.Mutex
+	faultNames = map[string]bool{}
+)
+
+func faultHook(operation, name string) error {
+	if operation != "unlink" && operation != "rmdir" {
+		return nil
+	}
+	faultMu.Lock()
+	defer faultMu.Unlock()
+	if faultNames[name] {
+		return fmt.Errorf("injected %s failure", operation)
+	}
+	return nil
+}
+
+func setFault(name string, on bool) {
+	faultMu.Lock()
+	defer faultMu.Unlock()
+	if on {
+		faultNames[name] = true
+	} else {
+		delete(faultNames, name)
+	}
 }
 
 type caseRun struct {
@@ -131,6 +187,9 @@ type caseRun struct {
 	lastTransition *core.Change
 	lastTransPrev  content
 	waits          int
+	fileNames      []string
+	dirNames       []string
+	childNames     []string
 }
 
 func (c *caseRun) bad(class, format string, a ...any) {
@@ -143,6 +202,9 @@ func (c *caseRun) bad(class, format string, a ...any) {
 // content at all").
 func (c *caseRun) id(ct content) int {
 	s := ct.String()
+	if s == absent.String() {
+		return 0
+	}
 	if v, ok := c.ids[s]; ok {
 		return v
 	}
@@ -158,38 +220,38 @@ func must(err error) {
 	}
 }
 
+// apply makes the one change that turns the disk into ct (one name differs).
 func (c *caseRun) apply(ct content) {
 	now := coldWalk(c.root)
 	for n := range now {
 		if ct[n] == "" { // (a changed file is replaced by the rename below, atomically)
-			must(os.RemoveAll(filepath.Join(c.root, n)))
+			must(os.Remove(filepath.Join(c.root, filepath.FromSlash(n))))
 		}
 	}
 	for n, k := range ct {
 		if now[n] == k {
 			continue
 		}
+		full := filepath.Join(c.root, filepath.FromSlash(n))
 		if k == "d" {
-			must(os.Mkdir(filepath.Join(c.root, n), 0o755))
+			must(os.Mkdir(full, 0o755))
 		} else {
 			// written next to the root and renamed into place: a polling scan
 			// running at this moment sees the old state or the complete file
 			v, _ := strconv.Atoi(k[1:])
-			tmp := c.root + ".tmp-" + n
+			tmp := c.root + ".tmp-" + strings.ReplaceAll(n, "/", "_")
 			must(os.WriteFile(tmp, variant(v), 0o644))
-			must(os.Rename(tmp, filepath.Join(c.root, n)))
+			must(os.Rename(tmp, full))
 		}
 	}
 }
 
-var fileNames = []string{"f0", "f1"}
-var dirNames = []string{"d0", "d1"}
-
 func (c *caseRun) randomEdit(ct content) content {
 	out := ct.clone()
 	for tries := 0; tries < 10; tries++ {
-		if c.r.Chance(1, 2) {
-			n := fileNames[c.r.Intn(len(fileNames))]
+		switch c.r.Intn(3) {
+		case 0:
+			n := c.fileNames[c.r.Intn(len(c.fileNames))]
 			switch {
 			case out[n] == "":
 				out[n] = "f" + strconv.Itoa(c.r.Intn(3))
@@ -198,21 +260,36 @@ func (c *caseRun) randomEdit(ct content) content {
 			default:
 				out[n] = "f" + strconv.Itoa(c.r.Intn(3))
 			}
-		} else {
-			n := dirNames[c.r.Intn(len(dirNames))]
+		case 1:
+			n := c.dirNames[c.r.Intn(len(c.dirNames))]
 			if out[n] == "" {
 				out[n] = "d"
 			} else {
+				for k := range out {
+					if strings.HasPrefix(k, n+"/") {
+						delete(out, k)
+					}
+				}
 				delete(out, n)
+			}
+		default: // a file inside a directory
+			n := c.dirNames[c.r.Intn(len(c.dirNames))]
+			out[n] = "d"
+			ch := n + "/" + c.childNames[c.r.Intn(len(c.childNames))]
+			if out[ch] == "" || c.r.Chance(1, 2) {
+				out[ch] = "f" + strconv.Itoa(c.r.Intn(3))
+			} else {
+				delete(out, ch)
 			}
 		}
 		if out.String() != ct.String() {
 			return out
 		}
 	}
-	out["f0"] = "f0"
+	n := c.fileNames[0]
+	out[n] = "f0"
 	if out.String() == ct.String() {
-		out["f0"] = "f1"
+		out[n] = "f1"
 	}
 	return out
 }
@@ -220,7 +297,7 @@ func (c *caseRun) randomEdit(ct content) content {
 // doEdit brings the root to the target content, one name at a time: every
 // intermediate state is a journalled edit of its own (each is atomic on disk).
 func (c *caseRun) doEdit(target content) {
-	for guard := 0; guard < 8; guard++ {
+	for guard := 0; guard < 24; guard++ {
 		cur := coldWalk(c.root)
 		if cur.String() == target.String() {
 			return
@@ -234,14 +311,20 @@ func (c *caseRun) doEdit(target content) {
 		}
 		sort.Strings(names)
 		step := cur.clone()
-		for _, n := range names {
-			if cur[n] != target[n] {
-				if target[n] == "" {
-					delete(step, n)
-				} else {
-					step[n] = target[n]
-				}
+		changed := false
+		for i := len(names) - 1; i >= 0 && !changed; i-- { // removals, deepest first
+			if n := names[i]; cur[n] != "" && target[n] == "" {
+				delete(step, n)
+				changed = true
+			}
+		}
+		for _, n := range names { // creations and replacements, parents first
+			if changed {
 				break
+			}
+			if cur[n] != target[n] && target[n] != "" {
+				step[n] = target[n]
+				changed = true
 			}
 		}
 		c.apply(step)
@@ -284,7 +367,18 @@ func (c *caseRun) doScan(full bool) {
 	c.view, c.haveView, c.signalSince, c.scannedSinceT = got.String(), true, false, true
 }
 
-// doTransition asks for one change relative to the last snapshot.
+// entryAt finds the entry of the last snapshot at a top-level name.
+func (c *caseRun) entryAt(n string) *core.Entry {
+	if c.lastSnap == nil || c.lastSnap.Content == nil {
+		return nil
+	}
+	return c.lastSnap.Content.Contents[n]
+}
+
+// doTransition asks for one change relative to the last snapshot: create a
+// directory, delete a file, or delete a directory with what the snapshot says is
+// below it — plainly, after another program added a file the snapshot does not
+// know, or with an injected failure of one child's unlink or of the rmdir.
 func (c *caseRun) doTransition() {
 	if !c.scannedSinceT {
 		c.doScan(false)
@@ -294,59 +388,119 @@ func (c *caseRun) doTransition() {
 	}
 	snapC := ofSnapshot(c.lastSnap)
 	var change *core.Change
-	// prefer creating / deleting a directory; sometimes delete a file
-	var fileCands []string
-	for _, n := range fileNames {
+	var fileCands, dirCands, fullDirCands []string
+	for _, n := range c.fileNames {
 		if snapC[n] != "" {
 			fileCands = append(fileCands, n)
 		}
 	}
-	if len(fileCands) > 0 && c.r.Chance(1, 3) {
+	for _, n := range c.dirNames {
+		if snapC[n] != "" {
+			dirCands = append(dirCands, n)
+			for k := range snapC {
+				if strings.HasPrefix(k, n+"/") {
+					fullDirCands = append(fullDirCands, n)
+					break
+				}
+			}
+		}
+	}
+	sort.Strings(fullDirCands)
+	fault := ""
+	switch x := c.r.Intn(10); {
+	case x < 5 && len(fullDirCands) > 0: // a directory with content, possibly removed only partly
+		n := fullDirCands[c.r.Intn(len(fullDirCands))]
+		change = &core.Change{Path: n, Old: c.entryAt(n)}
+		var kids []string
+		for k := range snapC {
+			if strings.HasPrefix(k, n+"/") {
+				kids = append(kids, k[len(n)+1:])
+			}
+		}
+		sort.Strings(kids)
+		switch c.r.Intn(4) {
+		case 0: // another program adds a file the snapshot does not know
+			for _, ch := range c.childNames {
+				if snapC[n+"/"+ch] == "" && coldWalk(c.root)[n] == "d" {
+					disk := coldWalk(c.root)
+					disk[n+"/"+ch] = "f" + strconv.Itoa(c.r.Intn(3))
+					c.doEdit(disk)
+					c.counts["transition:unknown-child"]++
+					break
+				}
+			}
+		case 1: // one child cannot be unlinked
+			fault = kids[c.r.Intn(len(kids))]
+			c.counts["transition:unlink-fault"]++
+		case 2: // the emptied directory cannot be removed
+			fault = n
+			c.counts["transition:rmdir-fault"]++
+		}
+	case x < 7 && len(fileCands) > 0:
 		n := fileCands[c.r.Intn(len(fileCands))]
-		change = &core.Change{Path: n, Old: c.lastSnap.Content.Contents[n]}
-	} else {
-		n := dirNames[c.r.Intn(len(dirNames))]
+		change = &core.Change{Path: n, Old: c.entryAt(n)}
+	default:
+		n := c.dirNames[c.r.Intn(len(c.dirNames))]
 		if snapC[n] == "" {
 			change = &core.Change{Path: n, New: &core.Entry{Kind: core.EntryKind_Directory}}
 		} else {
-			change = &core.Change{Path: n, Old: c.lastSnap.Content.Contents[n]}
+			change = &core.Change{Path: n, Old: c.entryAt(n)}
 		}
 	}
 	before := coldWalk(c.root)
-	target := before.clone()
-	if change.New == nil {
-		delete(target, change.Path)
-	} else {
-		target[change.Path] = "d"
+	if fault != "" {
+		setFault(fault, true)
 	}
-	c.log(fmt.Sprintf("Tb%d", c.id(target)))
 	results, _, _, err := c.ep.Transition(context.Background(), []*core.Change{change})
+	if fault != "" {
+		setFault(fault, false)
+	}
 	c.scannedSinceT = false
+	if err != nil && strings.Contains(err.Error(), "removing more entries than exist") {
+		// a polling scan has meanwhile counted fewer entries than the snapshot
+		// the change is based on: refused before anything is touched
+		c.counts["transition:refused-stale-count"]++
+		return
+	}
 	if err != nil {
 		c.bad("transition-error", "%v", err)
 		return
 	}
-	made := !results[0].Equal(change.Old, true)
 	after := coldWalk(c.root)
+	// "made changes": the result differs from the old entry at any depth — the
+	// harness's own comparison of its own descriptions of the two entries
+	made := entryListing(results[0]) != entryListing(change.Old)
+	c.log(fmt.Sprintf("Tb%d", c.id(after)))
 	m := "0"
 	if made {
 		m = "1"
 		c.counts["transition:changed"]++
+		if results[0] != nil && change.Old != nil && change.New == nil {
+			c.counts["transition:partial-removal"]++
+		}
 	} else {
 		c.counts["transition:refused"]++
 	}
 	c.log("Te" + m)
 	c.counts["op:T"]++
-	want := before
-	if made {
-		want = target
-	}
-	if after.String() != want.String() {
-		c.bad("transition-outcome", "disk %q after a transition with made=%v, expected %q", after, made, want)
+	// the results describe what happened on disk: if the disk changed, they differ
+	// from the old entry (they may also differ because expected content had
+	// already been removed by another program)
+	if !made && after.String() != before.String() {
+		c.bad("transition-outcome", "disk %q -> %q after a transition whose results equal the old entry", before, after)
 	}
 	if made {
 		c.sinceTransEnd = []string{after.String()}
 		c.lastTransPrev = before
+		if c.r.Chance(2, 5) {
+			// the controller rescans at once, before the next polling scan: it
+			// must be shown the disk as it is now
+			c.doScan(false)
+			c.counts["scenario:scan-right-after-transition"]++
+			if c.oracle != "" {
+				return
+			}
+		}
 		if c.waits < 2 && c.r.Chance(1, 3) {
 			// somebody undoes the change at once: the polling scans see the same
 			// content before and after, so only the transition's own strobe can
@@ -406,17 +560,51 @@ func (c *caseRun) doWait() {
 	}
 }
 
+// doBreak replaces the root by a symbolic link for several polling intervals
+// (polling scans fail), then puts it back: polling must go on afterwards.
+func (c *caseRun) doBreak() {
+	away := c.root + ".away"
+	cur := coldWalk(c.root)
+	must(os.Rename(c.root, away))
+	c.log("E0") // no root at all
+	c.sinceTransEnd = append(c.sinceTransEnd, absent.String())
+	must(os.Symlink(away, c.root))
+	c.log("B1")
+	c.waits++
+	time.Sleep(waitDuration)
+	c.log("W")
+	c.doCheck()
+	must(os.Remove(c.root))
+	c.log("B0")
+	must(os.Rename(away, c.root))
+	c.log(fmt.Sprintf("E%d", c.id(cur)))
+	c.sinceTransEnd = append(c.sinceTransEnd, cur.String())
+	c.counts["scenario:root-unreadable"]++
+	// the controller rescans; what happens next must still be noticed
+	c.doScan(false)
+	if c.oracle != "" {
+		return
+	}
+	c.doEdit(c.randomEdit(cur))
+	c.doWait()
+}
+
 func runCase(seed uint64, id int, base string) (line, impl, oracle string, counts map[string]int) {
 	r := hx.NewRand(seed)
 	c := &caseRun{r: r, root: filepath.Join(base, "root"+strconv.Itoa(id)), ids: map[string]int{}, counts: map[string]int{}}
+	sid := strconv.Itoa(id)
+	c.fileNames = []string{"f" + sid + "a", "f" + sid + "b"}
+	c.dirNames = []string{"d" + sid + "a", "d" + sid + "b"}
+	c.childNames = []string{"c" + sid + "x", "c" + sid + "y", "c" + sid + "z"}
 	os.RemoveAll(c.root)
 	must(os.MkdirAll(c.root, 0o755))
 	defer os.RemoveAll(c.root)
 	start := content{}
-	for i := r.Intn(3); i > 0; i-- {
+	for i := r.Intn(5); i > 0; i-- {
 		start = c.randomEdit(start)
 	}
-	c.apply(start)
+	c.doEdit(start)
+	c.events, c.sinceTransEnd = nil, nil
 	accel := !r.Chance(1, 6)
 	cfg := &synchronization.Configuration{
 		WatchMode:            synchronization.WatchMode_WatchModeForcePoll,
@@ -439,6 +627,10 @@ func runCase(seed uint64, id int, base string) (line, impl, oracle string, count
 	// let the baseline polling scan happen (it is immediate)
 	time.Sleep(time.Duration(20+r.Intn(60)) * time.Millisecond)
 
+	if r.Chance(1, 8) {
+		c.doScan(false)
+		c.doBreak()
+	}
 	if r.Chance(1, 3) {
 		// the reversal schedule: scan, transition, rescan, somebody undoes the
 		// transition, several polling intervals pass
@@ -535,6 +727,7 @@ func journalOracle(line string) string {
 }
 
 func main() {
+	filesystem.VerifSetFaultHook(faultHook)
 	hx.Main("C42", func(c *hx.Ctx) {
 		out := os.Getenv("VERIF_OUT")
 		if out == "" {
